@@ -132,8 +132,112 @@ def parseFs (s : String) : Option FsState :=
 def showKeyErr (r : KeyErr) : String :=
   s!"key={optHex r.key} err={if r.err then 1 else 0}"
 
+/-- `nil` or `<key type>:<hex raw bytes>` -/
+def parseKeyVal (s : String) : Option (Option KeyVal) :=
+  if s = "nil" then some none else
+  match s.splitOn ":" with
+  | [t, r] => do
+    let t ← t.toInt?
+    let r ← unhex r
+    some (some ⟨t, r⟩)
+  | _ => none
+
+def parseOptKey (s : String) : Option (Option Bytes) :=
+  if s = "nil" then some none else (unhex s).map some
+
+def showPeerInfo (r : PeerInfo) : String :=
+  s!"priv={optHex r.priv} pub={hexOrDash r.pub} id={hexOrDash r.id}"
+
+def showFsAfter (before after : FsState) : String :=
+  match after with
+  | .missing => "missing"
+  | .statErr => "staterr"
+  | .dir => "dir"
+  | .file b => if before = after then "same" else "file " ++ showBlock b
+
+/-- run `f` with the PEM oracle for the content of a file state (no question for non-files) -/
+def withFsPem (args : List String) (fs : FsState) (f : PemCodec → String) : Option String :=
+  match fs with
+  | .file b => withPem args b f
+  | _ => some (f noPem)
+
 def handle (op : String) (args : List String) : Option String :=
   match op with
+  -- ---------- C11: Equals, key generation, nil keys ----------
+  | "keyEquals" => do
+    let a ← (← kv args "a") |> parseKeyVal
+    let b ← (← kv args "b") |> parseKeyVal
+    let a ← a
+    some (if keyEquals a b then "ok 1" else "ok 0")
+  | "generate" => do
+    let typ ← kvInt args "typ"
+    let src ← kvBytes args "src"
+    if typ = keyTypeEd25519 ∧ 32 ≤ src.length then
+      match kvBytes args "pub" with
+      | none => some s!"ask pub edpub {hexOrDash (src.take 32)}"
+      | some pub =>
+        some (showRes (fun r => s!"priv={hexOrDash r.1} pub={hexOrDash r.2}")
+          (generateKeyPair (fun x => if x = src.take 32 then pub else []) typ src))
+    else
+      some (showRes (fun r => s!"priv={hexOrDash r.1} pub={hexOrDash r.2}") (generateKeyPair (fun _ => []) typ src))
+  | "marshalOpt" => do
+    let which ← kv args "which"
+    let k ← (← kv args "k") |> parseOptKey
+    match which with
+    | "priv" => some (showRes hexOrDash (marshalPrivateKeyOpt k))
+    | "pub" => some (showRes hexOrDash (marshalPublicKeyOpt k))
+    | "privPem" => some (showRes showBlock (marshalPrivKeyPemOpt noPem k))
+    | "pubPem" => some (showRes showBlock (marshalPubKeyPemOpt noPem k))
+    | "confPriv" => some (showRes hexOrDash (confMarshalPrivateKeyOpt k))
+    | "confPub" => some (showRes hexOrDash (confMarshalPublicKeyOpt k))
+    | _ => none
+  -- ---------- C38: ValidatePeerID, static controller ----------
+  | "validatePeerId" => do
+    let s ← kvBytes args "s"
+    some (if validatePeerId s then "ok 1" else "ok 0")
+  | "staticCtl" => do
+    let l ← kvBytesList args "l"
+    let q ← kvBytesList args "q"
+    let valid := if staticConfigValid l then 1 else 0
+    match newStaticController l with
+    | none => some s!"ok valid={valid} ctl=err"
+    | some m =>
+      let res := q.map fun pid => hexOrDash pid ++ ":" ++ showBytesList (resolveLookup m pid)
+      some s!"ok valid={valid} ctl=ok res={if res.isEmpty then "_" else ";".intercalate res}"
+  -- ---------- C39: read-only uses of key files ----------
+  | "readPriv" => do
+    let fs ← (kv args "fs").bind parseFs
+    withFsPem args fs fun P => showRes showPeerInfo (readPrivPeer P fs)
+  | "readPub" => do
+    let fs ← (kv args "fs").bind parseFs
+    withFsPem args fs fun P => showRes showPeerInfo (readPubPeer P fs)
+  | "loadPub" => do
+    let fs ← (kv args "fs").bind parseFs
+    let gen ← kv args "gen"
+    let gen ← if gen = "none" then some none else (unhex gen).map some
+    let w ← (kv args "write").bind bool01
+    withFsPem args fs fun P =>
+      let r := loadPubKey P gen w fs
+      showRes hexOrDash r.1 ++ " fs=" ++ showFsAfter fs r.2
+  | "loadPriv" => do
+    let fs ← (kv args "fs").bind parseFs
+    let gen ← kv args "gen"
+    let gen ← if gen = "none" then some none else (unhex gen).map some
+    let w ← (kv args "write").bind bool01
+    withFsPem args fs fun P =>
+      let r := loadPrivKey P gen w fs
+      showRes hexOrDash r.1 ++ " fs=" ++ showFsAfter fs r.2
+  | "subscribe" => do
+    let txt ← kvBytes args "txt"
+    withPem args txt fun P => showRes showPeerInfo (privPeerOfPem P txt)
+  | "daemon" => do
+    let fs ← (kv args "fs").bind parseFs
+    let gen ← kv args "gen"
+    let gen ← if gen = "none" then some none else (unhex gen).map some
+    let w ← (kv args "write").bind bool01
+    withFsPem args fs fun P =>
+      let r := daemonKey P gen w fs
+      showRes hexOrDash r.1 ++ " fs=" ++ showFsAfter fs r.2
   -- ---------- strings ----------
   | "trimSpace" => do
     let s ← kvBytes args "s"
